@@ -127,6 +127,7 @@ func cmdCheck(args []string) int {
 		*tier = "quick"
 	}
 	seed := envInt("VERIF_SEED", 1)
+	sx.CrossCheck = os.Getenv("GOSMT_CROSSCHECK") == "1"
 	if *verbose {
 		sx.Progress = 5 * time.Second
 		sx.DebugSlow = time.Duration(envInt("GOSMT_SLOW_MS", 3000)) * time.Millisecond
